@@ -6,6 +6,7 @@ set_option linter.unusedSimpArgs false
 set_option linter.unusedVariables false
 namespace Lemmas
 open Gen.Bumping Rs C11
+attribute [local congr] rs_bind_congr rs_ite_congr
 
 theorem bump_prepare_up_ok (p : BumpProps) (h : Valid true p) :
     bump_prepare_up p = .ok (Spec.prepareUp p.start p.«end» p.layout.size p.layout.align) := by
